@@ -46,6 +46,13 @@ RULE = ("squfof directly on u64: exhaustive n < 2^16 (quick: n < 2^13 and every 
 FINDING_KEY = "squfof-direct-division-by-zero"
 
 W = 1 << 64
+# prime cubes that succeed only in a late round (found with the model's trace): 137^3 k=44, 151^3 k=48, 173^3 k=49, 163^3 k=50
+# (a loop bound 1..=49 instead of 1..=50 changes only the last one; odd semiprimes never got beyond round 23 in 300k trials)
+LATE = [2571353, 3442951, 5177717, 4330747]
+# every n < 2^16 on which the unchanged code panics (recorded observation, = the model's answers): a panic on any other
+# n < 2^16 is a NEW failure even when n is in the excluded set of squfof_no_panic_partial
+KNOWN_SMALL_PANICS = {2, 3, 5, 7, 11, 13, 17, 19, 23, 29, 31, 37, 41, 43, 47, 50, 242, 1058, 1682, 4232, 5043, 6845, 13467, 14283,
+                      15842, 18818, 21218, 30603, 32258, 35912, 37538, 39762, 57122}
 SMALL = [p for p in range(2, 200) if all(p % q for q in range(2, p))]
 
 
@@ -95,6 +102,10 @@ def cases(tier, rng, extended=False):
             seen.add(n)
             yield mk(n, tag)
 
+    for n in LATE:
+        yield from emit(n, "late-round")
+    for n in sorted(KNOWN_SMALL_PANICS):
+        yield from emit(n, "small")
     # 1. exhaustive small n
     for n in range(1 << 16):
         if (not quick) or extended or n < (1 << 13) or n % 7 == 3:
@@ -227,8 +238,12 @@ def oracle(case, ans):
 
 
 def finding_key(case, ans, profile):
-    if case.op == "squfof" and ans == "panic" and excluded(int(case.args[0])) and not reachable(int(case.args[0])):
-        return FINDING_KEY
+    if case.op == "squfof" and ans == "panic":
+        n = int(case.args[0])
+        if n < (1 << 16):
+            return FINDING_KEY if n in KNOWN_SMALL_PANICS else None
+        if excluded(n) and not reachable(n):
+            return FINDING_KEY
     return None
 
 
